@@ -183,6 +183,8 @@ class Sh:
             # layout: one top-level statement per line, or several statements packed on a line (free-form language: the
             # interactive loop must execute every statement of a line, also the ones after an `end loop;`)
             chunks = ml.render(funcs, prog, r, toplevel_split=True)
+            if any(c.startswith("function") and re.search(r"\breturn\s*;", c) for c in chunks):
+                continue      # a bare `return;` in a typed function: compile-time types differ between whole-program and statement-at-a-time (see C02)
             if i % 2 == 0:
                 text = "\n".join(chunks) + "\n"
             else:
